@@ -30,12 +30,14 @@ type c12Input struct {
 	Graph string  `json:"graph"` // name of the family
 	Spec  string  `json:"spec"`  // the family as a Coq term (generator), so that large graphs stay small in the cases file
 	Adj   [][]int `json:"adj"`   // adj[v] = successors of v
-	Hops  int     `json:"hops"`  // body: that many out() steps
+	Hops  int     `json:"hops"`  // body: that many moves (out() unless Move says otherwise)
 	Start []int   `json:"start"` // V(ids); empty = V()
 	Bound int     `json:"bound"`
 	Emit  bool    `json:"emit"`
 	Procs int     `json:"gomaxprocs"`
 	Jumps int     `json:"jumps,omitempty"` // 2: a second jump to the same mark follows, with a condition that never holds
+	// how the body moves along adj: "" = out(); "in" = in() over a store that holds every edge reversed; "eout" = outE().out()
+	Move string `json:"move,omitempty"`
 }
 type c12Obs struct {
 	Closed   bool   `json:"closed"`
@@ -104,7 +106,14 @@ func loopProg(in c12Input) []tStmt {
 	}
 	p := []tStmt{{Op: "V", Strs: ids}, {Op: "as", Str: "m"}, {Op: "set", Str: "$m.c", Tpl: 0.0}, {Op: "mark", Str: "s"}}
 	for i := 0; i < in.Hops; i++ {
-		p = append(p, tStmt{Op: "out"})
+		switch in.Move {
+		case "in":
+			p = append(p, tStmt{Op: "in"})
+		case "eout":
+			p = append(p, tStmt{Op: "outE"}, tStmt{Op: "out"})
+		default:
+			p = append(p, tStmt{Op: "out"})
+		}
 	}
 	emit := int64(0)
 	if in.Emit {
@@ -124,7 +133,17 @@ func loopWorker(req json.RawMessage) interface{} {
 	if err := json.Unmarshal(req, &in); err != nil {
 		return c12Obs{Err: err.Error()}
 	}
-	gi, err := loopGraph(in.Adj)
+	adj := in.Adj
+	if in.Move == "in" {
+		// the store holds w -> v for every successor w of v: in() from v then yields exactly adj[v]
+		adj = make([][]int, len(in.Adj))
+		for v, ws := range in.Adj {
+			for _, w := range ws {
+				adj[w] = append(adj[w], v)
+			}
+		}
+	}
+	gi, err := loopGraph(adj)
 	if err != nil {
 		return c12Obs{Err: err.Error()}
 	}
@@ -260,6 +279,18 @@ func c12Inputs(ctx *Ctx) []c12Input {
 								if !big && hops == 1 && procs == 16 && bound >= 1 {
 									in.Jumps = 2
 									out = append(out, in)
+									in.Jumps = 0
+								}
+								// the same loop with a body that moves with in() (over the reversed store) / outE().out()
+								if hops == 1 && bound >= 1 && procs == 16 {
+									in2 := in
+									in2.Move = "in"
+									out = append(out, in2)
+									if !big && emit {
+										in3 := in
+										in3.Move = "eout"
+										out = append(out, in3)
+									}
 								}
 							}
 						}
@@ -321,7 +352,7 @@ func runC12(ctx *Ctx) error {
 	ctx.Shard = 60
 	ctx.Scope = "N_scope"
 	ctx.Exhaustive = true
-	ctx.Rule = "grid: graph families (empty, single vertex, self-loop, chain, cycles of 5/120/1300, complete K4, stars of 60/700 leaves pointing back at the hub; thorough adds K6, cycle 5200, star 2600, chain 40 and 12 random digraphs) x loop V(start).as(m).set($m.c,0).mark(s).out(){1,2}.increment($m.c).jump(s, $m.c < bound, emit) [optionally followed by a second jump to s whose condition never holds] with bound in {0,1,2,3,5}, emit on/off, start = all vertices or one vertex, GOMAXPROCS 1 and 16; travelers in flight range from 0 to several times the 50-slot queue channels and the 1000-slot slice; production compiler + pipeline.Run on badger in worker sub-processes, 25 s deadline; observed: stream closed, multiset of vertex ids delivered, goroutines left; non-trivial = at least one traveler jumps back; distinct by input"
+	ctx.Rule = "grid: graph families (empty, single vertex, self-loop, chain, cycles of 5/120/1300, complete K4, stars of 60/700 leaves pointing back at the hub; thorough adds K6, cycle 5200, star 2600, chain 40 and 12 random digraphs) x loop V(start).as(m).set($m.c,0).mark(s).out(){1,2} [also in() over the reversed store, and outE().out()].increment($m.c).jump(s, $m.c < bound, emit) [optionally followed by a second jump to s whose condition never holds] with bound in {0,1,2,3,5}, emit on/off, start = all vertices or one vertex, GOMAXPROCS 1 and 16; travelers in flight range from 0 to several times the 50-slot queue channels and the 1000-slot slice; production compiler + pipeline.Run on badger in worker sub-processes, 25 s deadline; observed: stream closed, multiset of vertex ids delivered, goroutines left; non-trivial = at least one traveler jumps back; distinct by input"
 	var inputs []c12Input
 	if ctx.Replay != nil {
 		var in c12Input
